@@ -425,6 +425,7 @@ fn main() {
     start_watchdog(env_u64("VERIF_WATCHDOG", 90));
     let (mut nev, mut panics) = (0usize, 0usize);
     let mut abandoned = 0usize;
+    let mut completed = 0usize;
     let mut findings: Vec<Value> = Vec::new();
     let t_start = std::time::Instant::now();
     {
@@ -649,7 +650,7 @@ fn main() {
             Err(_) => { abandoned += 1; if abandoned > 6 { break; } continue; }
         };
         match res {
-            Ok(evs) => { for e in evs { writeln!(out, "{e}").unwrap(); nev += 1; } }
+            Ok(evs) => { completed += 1; for e in evs { writeln!(out, "{e}").unwrap(); nev += 1; } }
             Err(p) => {
                 panics += 1;
                 findings.push(json!({"kind":"finding","prop":"C08","what":"panic during rewriting / extraction","site":p.site,
@@ -658,7 +659,7 @@ fn main() {
         }
     }
     for f in &findings { println!("{f}"); }
-    println!("{}", json!({"kind":"summary","runs":runs,"events":nev,"panics":panics,"p":rf.p,"runs_abandoned_as_too_slow":abandoned}));
+    println!("{}", json!({"kind":"summary","runs":completed,"runs_requested":runs + runs / 10,"events":nev,"panics":panics,"p":rf.p,"runs_abandoned_as_too_slow":abandoned}));
     out.flush().unwrap();
     std::process::exit(0);      // abandoned runs may still be computing
 }
